@@ -248,6 +248,10 @@ class FunTr:
                 fail(s, "only tuples can be yielded")
             tup = "(" + ", ".join(self.zexpr(x, env) for x in v.elts) + ")"
             return pad + f"let ys := ys ++ [{tup}] in\n" + self.stmts(rest, env, ind)
+        if isinstance(s, ast.If) and self.is_int_normalisation(s, env):
+            # `if isinstance(x, np.integer): x = int(x)`: a change of representation (NumPy
+            # integer -> Python int of the same value); the identity on the model's integers
+            return self.stmts(rest, env, ind)
         if isinstance(s, ast.If):
             if self.is_none_test(s.test, env):
                 x = s.test.left.id
@@ -295,6 +299,24 @@ class FunTr:
                 f"{pad}    (fun '{tup} =>\n{body})\n{pad}    {tup} in\n" \
                 + self.stmts(rest, env, ind)
         fail(s, "unsupported statement")
+
+    def is_int_normalisation(self, s, env):
+        t = s.test
+        if s.orelse or len(s.body) != 1:
+            return False
+        if not (isinstance(t, ast.Call) and isinstance(t.func, ast.Name) and t.func.id == 'isinstance'
+                and len(t.args) == 2 and not t.keywords and isinstance(t.args[0], ast.Name)
+                and isinstance(t.args[1], ast.Attribute) and isinstance(t.args[1].value, ast.Name)
+                and t.args[1].value.id == 'np' and t.args[1].attr == 'integer'):
+            return False
+        x = t.args[0].id
+        b = s.body[0]
+        if env.get(x) != 'Z':
+            return False
+        return (isinstance(b, ast.Assign) and len(b.targets) == 1 and isinstance(b.targets[0], ast.Name)
+                and b.targets[0].id == x and isinstance(b.value, ast.Call) and isinstance(b.value.func, ast.Name)
+                and b.value.func.id == 'int' and len(b.value.args) == 1 and not b.value.keywords
+                and isinstance(b.value.args[0], ast.Name) and b.value.args[0].id == x)
 
     def call(self, c, env):
         pnames = self.known[c.func.id]
